@@ -145,7 +145,9 @@ def run(tier):
             ("rnd4", {"progs": [LAU + LAU, LAU + TAU, TAU + LAU, LAU + LAU], "runs": 3000, "spur": 1, "eintr": 1}),
         ]
     stress = {"threads": 4, "sections": 1500} if tier == "quick" else {"threads": 8, "sections": 10000}
-    return LC.run(tier, tours, configs, configs_if_differs, specs, stress=stress)
+    rel = [(t, sp) for t, sp in specs if t in ("dfs2", "dfs3", "cov4")]
+    return LC.run(tier, tours, configs, configs_if_differs, specs, stress=stress, release_specs=rel,
+                  probe_scenarios=["m_before", "m_after"])
 
 
 def replay(path):
